@@ -4,8 +4,9 @@
   order") FAILS in the micro-step model of Zip, CombineLatest, BufferWhen and WindowWhen: for each, a
   schedule whose delivered trace is the specification's value for NO compatible arrival order (and is
   not produced by the logical model either, so it is an effect of the interleaving of atomic steps,
-  not of the known logical deviations). The same outcomes are found on the real code by the stress
-  runs of harness kind `multibc`.
+  not of a logical deviation). The same outcomes are found on the real code by the stress
+  runs of harness kind `multibc`. (The self-deadlock of Zip and the error overtaken by `Complete`
+  are gone with the fix b6f7afa: see `zip_concurrent_error_scenario_ok`.)
 -/
 import RoModel.MultiB.Micro
 namespace Ro.MultiB.Micro
@@ -13,21 +14,30 @@ open Ro Ro.MultiB
 
 /-- Zip2, A = 1 then complete, B = 2. B pops (1,2) and releases the mutex; before it calls the
     destination, A's completion finds its queue empty and completes the destination; B's tuple is
-    refused: the only tuple is lost. -/
+    refused: the only tuple is lost. (Still so after the fix b6f7afa: the unlock-then-emit window of
+    `onUpdate` is untouched by it.) -/
 theorem zip_concurrent_lost_tuple_witness :
     let scripts : List (List (Ev Int)) := [[.next 1, .complete], [.next 2]]
-    (runMicro (zipMM 2) scripts [0, 1, 1, 0, 0, 0, 1, 1]).out = [.complete] ∧
+    (runMicro (zipMM 2) scripts [0, 0, 1, 1, 0, 0, 0, 1, 1, 1]).out = [.complete] ∧
     (∀ π ∈ allOrders scripts, Spec.zip 2 (arrivals (scriptsFn scripts) π) ≠ [.complete]) ∧
     (∀ π ∈ allOrders scripts, (run (zipM 2) scripts π).out ≠ [.complete]) := by decide
 
-/-- Zip2, same scripts. A's completion marks A completed (its queue is empty) but has not yet
-    called the destination; B, after delivering (1,2), re-locks the mutex, sees a finished drained
-    source and completes the destination *while holding the mutex*; the teardown that runs inside
-    that call locks the same mutex: self-deadlock (operator_combining.go:1183-1188, 1198-1202). -/
-theorem zip_concurrent_deadlock_witness :
+/-- What the fix b6f7afa did repair in the concurrent behaviour, on the scenarios where the pinned
+    code went wrong: over *all* schedules of the micro-step model, (i) A = 1 then error, B = 2: the
+    delivered trace is always one the specification allows (the error is never overtaken by a
+    `Complete` any more); (ii) A = 1 then complete, B = 2: the only traces are the specified one and
+    the lost-tuple one above. No step of the model calls the destination while holding the mutex, so
+    the self-deadlock of the pinned code (`destination.Complete` under the mutex, teardown locking
+    it) has no counterpart. -/
+theorem zip_concurrent_error_scenario_ok :
+    let scripts : List (List (Ev Int)) := [[.next 1, .error (.user 1)], [.next 2]]
+    ∀ s ∈ reach (zipMM 2) 40 ((zipMM 2).start scripts),
+      s.out = [.error (.user 1)] ∨ s.out = [.next [1, 2], .error (.user 1)] := by decide
+
+theorem zip_concurrent_complete_scenario_outcomes :
     let scripts : List (List (Ev Int)) := [[.next 1, .complete], [.next 2]]
-    let r := runMicro (zipMM 2) scripts [0, 0, 1, 1, 1, 0, 1]
-    r.out = [.next [1, 2], .complete] ∧ r.dead = true := by decide
+    ∀ s ∈ reach (zipMM 2) 40 ((zipMM 2).start scripts),
+      s.out = [.next [1, 2], .complete] ∨ s.out = [.complete] := by decide
 
 /-- Zip2 can also deliver tuples out of order: A pops (1,3) and is delayed before calling the
     destination while B completes the next tuple (2,4) and delivers it first. -/
